@@ -1006,7 +1006,7 @@ def run(ctx):
     import pycode  # translator validation: generated Lean definitions vs the real functions (harness/pycode.py)
     pycode.check(res, random.Random(ctx["seed"] * 7919 + 77), ctx["tier"], ["requests", "schedule"])
     import pycode_types  # translated frame object (Frame getters / setters / length / header / bytes) vs a real Frame subclass
-    pycode_types.check(res, random.Random(ctx["seed"] * 7919 + 79), ctx["tier"], ["frameobj"])
+    pycode_types.check(res, random.Random(ctx["seed"] * 7919 + 79), ctx["tier"], ["net", "frameobj"])
     tier = ctx["tier"]
     res.rule = ("envelope: 33 kinds x DeviceType and raw 0..255 addresses x sender-type/version bytes x payload sizes incl. the "
                 "256/65535 length boundaries; requests: every parameterised request with each field over 0..255 "
